@@ -62,17 +62,68 @@ func runSimCheck(spec *simCheckSpec, args []string) int {
 	var samples []interface{}
 	other := map[string]int{}
 	var harnessErrs []string
-	for i, sc := range scs {
-		remaining := total - time.Since(start)
-		share := remaining / time.Duration(len(scs)-i)
-		if share < 5*time.Second {
-			share = 5 * time.Second
+
+	// Iterative deepening of the deviation bound ACROSS scenarios: every scenario is
+	// first explored completely with at most 1 deviation, then with 2, ... up to its
+	// own bound, so that the cheap low bounds of all scenarios are finished before
+	// time is spent on the expensive ones.  The last run of a scenario is the one
+	// reported (it contains the lower levels).
+	maxD := 0
+	for _, sc := range scs {
+		if sc.MaxDev > maxD {
+			maxD = sc.MaxDev
 		}
-		res := explore(sc, share, 0)
+	}
+	last := map[string]*exploreResult{}
+	lastDev := map[string]int{}
+	capped := map[string]bool{}
+	for d := 1; d <= maxD; d++ {
+		var elig []*simScenario
+		for _, sc := range scs {
+			if sc.MaxDev >= d && !capped[sc.Name] {
+				elig = append(elig, sc)
+			}
+		}
+		remaining := total - time.Since(start)
+		levelBudget := remaining
+		if d < maxD {
+			levelBudget = remaining * 35 / 100
+		}
+		levelStart := time.Now()
+		for i, sc := range elig {
+			left := levelBudget - time.Since(levelStart)
+			share := left / time.Duration(len(elig)-i)
+			if share < 3*time.Second {
+				share = 3 * time.Second
+			}
+			if total-time.Since(start) < 2*time.Second {
+				capped[sc.Name] = true
+				continue
+			}
+			c := cloneScenario(sc)
+			c.MaxDev = d
+			res := explore(c, share, 0)
+			if old := last[sc.Name]; old != nil {
+				// findings of shallower runs stay (a deeper run finds them again unless it is capped)
+				res.Findings = append(res.Findings, old.Findings...)
+			}
+			last[sc.Name], lastDev[sc.Name] = res, d
+			if !res.Exhaustive {
+				capped[sc.Name] = true
+			}
+		}
+	}
+	for _, sc := range scs {
+		res := last[sc.Name]
+		if res == nil {
+			exhaustive = false
+			scenCov = append(scenCov, map[string]interface{}{"name": sc.Name, "not_run": "time budget exhausted before this scenario was started"})
+			continue
+		}
 		states += res.States
 		trans += res.Transitions
 		validated += res.Validated
-		if !res.Exhaustive {
+		if !res.Exhaustive || lastDev[sc.Name] < sc.MaxDev {
 			exhaustive = false
 		}
 		reached := map[string]int{}
@@ -85,11 +136,15 @@ func runSimCheck(spec *simCheckSpec, args []string) int {
 				vacuous = append(vacuous, k)
 			}
 		}
+		mode := "free-order (every interleaving of internal events; faults/timeouts/client operations cost deviations)"
+		if sc.Menu.OrderCost {
+			mode = "delay-bounded (default schedule free; every departure from it, fault, timeout or client operation costs a deviation)"
+		}
 		scenCov = append(scenCov, map[string]interface{}{
-			"name": sc.Name, "nodes": sc.Opt.Nodes, "voters": sc.Opt.Voters, "nonvoters": sc.Opt.Nonvoters,
-			"seed_script": sc.Script, "deviation_bound": sc.MaxDev, "deviation_bound_completed": res.DevCompleted,
+			"name": sc.Name, "nodes": sc.Opt.Nodes, "voters": sc.Opt.Voters, "nonvoters": sc.Opt.Nonvoters, "mode": mode, "final_check": sc.Final,
+			"seed_script": sc.Script, "deviation_bound": sc.MaxDev, "deviation_bound_attempted": lastDev[sc.Name], "deviation_bound_completed": res.DevCompleted,
 			"states": res.States, "transitions": res.Transitions, "max_depth": res.MaxDepth,
-			"exhaustive": res.Exhaustive, "cap": res.Capped, "reached": reached, "not_reached": vacuous,
+			"exhaustive": res.Exhaustive && lastDev[sc.Name] == sc.MaxDev, "cap": res.Capped, "reached": reached, "not_reached": vacuous,
 			"replay_hash_mismatches": res.Mismatches, "maporder_steps_repeated": res.OrderSteps, "maporder_extra_outcomes": res.OrderAlts, "worker_deaths": res.WorkerDeaths, "wall_s": res.Wall,
 			"terminal_states": res.Outcomes["terminal"], "crash_images": res.CrashImages, "crash_points": res.CrashPoints,
 		})
@@ -98,15 +153,21 @@ func runSimCheck(spec *simCheckSpec, args []string) int {
 				samples = append(samples, map[string]interface{}{"scenario": sc.Name, "history": s})
 			}
 		}
+		seenF := map[string]bool{}
 		for _, f := range res.Findings {
+			fk := f.Viol.Oracle + ":" + f.Viol.Key
+			if seenF[fk] {
+				continue
+			}
+			seenF[fk] = true
 			if own[f.Viol.Oracle] {
 				scj, _ := json.Marshal(sc)
-				run.Violation(f.Viol.Oracle+":"+f.Viol.Key, f.Viol.Desc, map[string]interface{}{
+				run.Violation(fk, f.Viol.Desc, map[string]interface{}{
 					"scenario": json.RawMessage(scj), "hist": f.Hist, "oracle": f.Viol.Oracle,
 					"history_readable": histStrings(f.Hist),
 				})
 			} else {
-				other[f.Viol.Oracle+":"+f.Viol.Key]++
+				other[fk]++
 			}
 		}
 		for _, e := range res.Errors {
@@ -114,8 +175,8 @@ func runSimCheck(spec *simCheckSpec, args []string) int {
 				harnessErrs = append(harnessErrs, sc.Name+": "+e)
 			}
 		}
-		fmt.Printf("  scenario %-16s states=%-8d transitions=%-9d depth=%-3d dev<=%d completed=%d exhaustive=%v %s wall=%.1fs\n",
-			sc.Name, res.States, res.Transitions, res.MaxDepth, sc.MaxDev, res.DevCompleted, res.Exhaustive, res.Capped, res.Wall)
+		fmt.Printf("  scenario %-34s states=%-8d transitions=%-9d depth=%-3d dev<=%d attempted=%d completed=%d exhaustive=%v %s wall=%.1fs\n",
+			sc.Name, res.States, res.Transitions, res.MaxDepth, sc.MaxDev, lastDev[sc.Name], res.DevCompleted, res.Exhaustive, res.Capped, res.Wall)
 	}
 	// vacuity guard: the subject of the property must have been reached somewhere
 	var vac []string
